@@ -44,7 +44,13 @@ RULE = (
     "65535..65537 symbols and mappers between them (every width pair of the compiled mapping routine); k-mer alphabets "
     "straddling the int64 limit; every 1- and 2-step history over a 25..27-operation menu (valid, refused and invalid-code "
     "operations, symbols=, code=) on one sequence object against the string model; translation results scribbled over "
-    "and repeated, tables built from permuted arguments, sequences of 255..257, 999..1001 and 65535..65537 symbols."
+    "and repeated, tables built from permuted arguments, sequences of 255..257, 999..1001 and 65535..65537 symbols. "
+    "second audit: identity_derived = every listed way a sequence is handed out (21-23 derivations incl. degenerate "
+    "full-range / empty / one-operand ones) x {result is a new object and re-binding it leaves the operand alone} x "
+    "19-23 second operations on the derived object, for every ACGT string of length <= 3 and listed longer / IUPAC / "
+    "protein / general strings; two_features = every ordered pair of invalid-code classes in one array, pairs of awkward "
+    "item kinds in one symbol container, two out-of-range codes in every pair of positions for create_kmers, every "
+    "single missing codon; seqhist3 = every triple of 9 content-replacing operations of other sizes with a read in between."
 )
 ASSUMPTIONS = [
     "alphabets are built from pairwise different symbols (a bijection needs them); 1/True/1.0 are never mixed",
@@ -87,7 +93,8 @@ def bounds(tier):
         "kmer_seq_len": "<= span+2 (n^len <= 2048)" if q else "<= span+3 (n^len <= 16384)",
         "seqapi_len": {"nuc": 4, "iupac": 3 if not q else "3 (2 + seed-chosen third letter block at quick)", "protein": 3 if not q else "2 + seed block", "general": 3},
         "audit": "flavour_letter, flavour_generic (+ alphabets of 255..257 / 65535..65537 symbols, mapper width pairs), flavour_kmer "
-                 "(+ n^k around 2^63), seqhist (histories of depth 2), translate_extra (aliasing, argument order, lengths to 65537)",
+                 "(+ n^k around 2^63), seqhist (histories of depth 2), translate_extra (aliasing, argument order, lengths to 65537), "
+                 "identity_derived, two_features, seqhist3 (size-changing histories of depth 3 + reads)",
         "translate_len": "<=8 (default, 1, syn1, syn2, 2 seed-chosen NCBI), <=6 all 25 NCBI + 4 synthetic, 9 over {A,T,G} (default, 1, syn1, syn2)" if q else
                          "<=8 all 25 NCBI + default + 4 synthetic tables; 9 (all of ACGT) for default, 1, syn1, syn2; 10-11 over {A,T,G} for default, syn1",
     }
@@ -1874,6 +1881,7 @@ def shards(tier, seed):
         out.append({"kind": "audit", "fam": fam, "w": 4 if fam == "translate_extra" else 2})
     for part in ("nuc", "nuca", "prot", "gen"):
         out.append({"kind": "audit", "fam": "seqhist", "part": part, "w": 2})
+        out.append({"kind": "audit", "fam": "identity_derived", "part": part, "w": 4 if part == "nuc" else 2})
     out.sort(key=lambda s: -s["w"])
     r = seed % 7
     return out[r:] + out[:r] if out else out
@@ -2493,8 +2501,7 @@ def hist_pure_value(alph, sym, op):
     return None
 
 
-def check_history(ctx, cls, pal, s, ops):
-    fam = "seqhist"
+def check_history(ctx, cls, pal, s, ops, fam="seqhist"):
     alph = seq_alphabet(cls, pal)
     mk = lambda: aud_case(fam, cls=cls, pal=pal, s=s, ops=ops)  # noqa: E731
     q = make_seq(cls, pal, s)
@@ -2721,13 +2728,327 @@ def run_audit(shard, ctx):
         return
     if shard["fam"] == "seqhist":
         return fam_seqhist(ctx, shard.get("part"))
+    if shard["fam"] == "identity_derived":
+        return fam_identity_derived(ctx, shard.get("part"))
     AUDIT_FAMS[shard["fam"]](ctx)
 
 
 def replay_audit(case, ctx):
-    if case["fam"] == "seqhist" and "ops" in case:
-        return check_history(ctx, case["cls"], case.get("pal"), case["s"], case["ops"])
+    if case["fam"] in ("seqhist", "seqhist3") and "ops" in case:
+        return check_history(ctx, case["cls"], case.get("pal"), case["s"], case["ops"], fam=case["fam"])
+    if case["fam"] in ("identity", "derived"):
+        return fam_identity_derived(ctx, case["cls"] if not str(case.get("op1", "")).startswith("translate_") else "nuc")
     run_audit({"fam": case["fam"], "part": case.get("part")}, _nojournal(ctx))
 
 
 RUNNERS["audit"] = run_audit
+
+
+# ---------------------------------------------------------------------------
+# second dimension audit: result identity, two awkward features, other-size reuse, derived inputs
+# ---------------------------------------------------------------------------
+def _derivations(cls, alph, s):
+    """(name, fn(q) -> new sequence, model string) : every way the library hands out a sequence"""
+    L = len(s)
+    alt = [i % 2 == 0 for i in range(L)]
+    out = [
+        ("full_slice", lambda q: q[:], s), ("slice_0_L", lambda q: q[0:L], s), ("slice_step1", lambda q: q[::1], s),
+        ("mask_all", lambda q: q[np.ones(L, dtype=bool)], s), ("arange", lambda q: q[np.arange(L)], s),
+        ("empty_slice", lambda q: q[0:0], ""), ("empty_index", lambda q: q[np.array([], dtype=np.int64)], ""),
+        ("slice_step2", lambda q: q[::2], s[::2]), ("slice_neg", lambda q: q[::-1], s[::-1]), ("slice_1_3", lambda q: q[1:3], s[1:3]),
+        ("slice_neg2", lambda q: q[::-2], s[::-2]),
+        ("mask_alt", lambda q: q[np.array(alt, dtype=bool)], "".join(c for c, m in zip(s, alt) if m)),
+        ("index_rev", lambda q: q[np.arange(L)[::-1]], s[::-1]),
+        ("index_dup", lambda q: q[[0, 0, L - 1]] if L else q[[]], (s[0] * 2 + s[-1]) if L else ""),
+        ("copy", lambda q: q.copy(), s), ("copy_of_code", lambda q: q.copy(q.code), s),
+        ("reverse", lambda q: q.reverse(), s[::-1]), ("reverse_view", lambda q: q.reverse(copy=False), s[::-1]),
+        ("add_empty_right", lambda q: q + make_seq(cls, "xyz" if cls == "gen" else None, ""), s),
+        ("add_empty_left", lambda q: make_seq(cls, "xyz" if cls == "gen" else None, "") + q, s),
+        ("add_self", lambda q: q + q, s + s),
+    ]
+    if cls in ("nuc", "nuca"):
+        comp = "".join(sm.IUPAC_COMPLEMENT[c] for c in s)
+        out += [("complement", lambda q: q.complement(), comp), ("revcomp_view", lambda q: q.reverse(copy=False).complement(), comp[::-1])]
+    if cls == "prot":
+        out += [("remove_stops", lambda q: q.remove_stops(), s.replace("*", ""))]
+    return out
+
+
+def check_identity(ctx, cls, pal, s, name, fn, exp):
+    """A: the result is a new object; re-binding edits of the result leave the operand alone"""
+    alph = seq_alphabet(cls, pal)
+    mk = lambda: aud_case("identity", cls=cls, pal=pal, s=s, op=name)  # noqa: E731
+
+    def go():
+        q = make_seq(cls, pal, s)
+        r = fn(q)
+        out = [r is q, observe_seq(r, alph, list(exp))]
+        other = alph[-1] + alph[0] + alph[-1]
+        r.symbols = other                                   # re-binds the result's code
+        out.append(observe_seq(q, alph, list(s)))
+        r2 = fn(q)
+        r2.code = np.array([0] * 5, dtype=np.uint8)          # re-binds again, other length
+        out.append(observe_seq(q, alph, list(s)))
+        out.append(observe_seq(r, alph, list(other)))
+        return out
+    r = call(go)
+    judge(ctx, "Sequence.result_identity", name, mk, r, ("accept", [False, None, None, None, None]), 1)
+    ctx.outcome(("ident", cls, name, exp))
+
+
+def _second_ops(cls, alph, d):
+    """(name, fn(derived object, fresh twin) -> value, model value) for a derived sequence with model string d"""
+    Ld = len(d)
+    a_last = alph[-1]
+    ops = [
+        ("views", lambda x, f: observe_seq(x, alph, list(d)), None),
+        ("ints", lambda x, f: [plain(x[i]) for i in range(-Ld, Ld)], [d[i] for i in range(-Ld, Ld)]),
+        ("slice_neg", lambda x, f: str(x[::-1]), d[::-1]), ("slice_1", lambda x, f: str(x[1:]), d[1:]),
+        ("slice_step2", lambda x, f: str(x[1::2]), d[1::2]),
+        ("mask", lambda x, f: str(x[np.array([i % 2 == 1 for i in range(Ld)], dtype=bool)]), d[1::2]),
+        ("index", lambda x, f: str(x[[Ld - 1, 0]]) if Ld else "", (d[-1] + d[0]) if Ld else ""),
+        ("reverse", lambda x, f: str(x.reverse()), d[::-1]), ("reverse_view", lambda x, f: str(x.reverse(copy=False)), d[::-1]),
+        ("copy", lambda x, f: [str(x.copy()), bool(x.copy() == x)], [d, True]),
+        ("eq", lambda x, f: [bool(x == f), bool(f == x), bool(x != f)], [True, True, False]),
+        ("add", lambda x, f: [str(x + f), str(f + x), str(x + x)], [d + d] * 3),
+        ("as_item", lambda x, f: (lambda t: (t.__setitem__(slice(0, Ld), x), str(t))[1])(f + f), d + d),
+        ("setint", lambda x, f: (x.__setitem__(0, a_last), str(x))[1] if Ld else "", (a_last + d[1:]) if Ld else ""),
+        ("setslice", lambda x, f: (x.__setitem__(slice(None), f[::-1]), str(x))[1], d[::-1]),
+        ("decode_code", lambda x, f: "".join(plain(x.alphabet.decode_multiple(x.code))), d),
+        ("code_into_fresh", lambda x, f: (setattr(f, "code", x.code), str(f))[1], d),
+        ("symbols_into_fresh", lambda x, f: (setattr(f, "symbols", x.symbols), str(f))[1], d),
+        ("iter_construct", lambda x, f: str(type(f)(x)) if cls != "gen" else d, d),
+    ]
+    if cls in ("nuc", "nuca"):
+        comp = "".join(sm.IUPAC_COMPLEMENT[c] for c in d)
+        ops += [("complement", lambda x, f: [str(x.complement()), str(x.complement().complement()), str(x.reverse(copy=False).complement())],
+                 [comp, d, comp[::-1]])]
+    if cls == "nuc":
+        o = sm.orfs(d, sm.STANDARD_CODE, {"ATG"}, False)
+        ops += [("translate", lambda x, f: (lambda ps, pos: [[str(p) for p in ps], [list(map(int, y)) for y in pos]])(*x.translate()),
+                 [[p for p, _ in o], [list(y) for _, y in o]])]
+        if Ld % 3 == 0:
+            ops += [("translate_complete", lambda x, f: str(x.translate(complete=True)), sm.translate_complete(d, sm.STANDARD_CODE))]
+    if cls in ("nuc", "prot") and Ld >= 2:
+        n = len(alph)
+        codes = [alph.index(c) for c in d]
+        ops += [("create_kmers", lambda x, f: pl(_kmer2(alph).create_kmers(x.code)), sm.kmers_of(codes, n, 2, None)[0]),
+                ("create_kmers_spaced", lambda x, f: pl(_kmer2(alph, "101").create_kmers(x.code)) if Ld >= 3 else [],
+                 sm.kmers_of(codes, n, 2, [0, 2])[0] if Ld >= 3 else [])]
+    return ops
+
+
+_K2 = {}
+
+
+def _kmer2(alph, spacing=None):
+    key = (alph, spacing)
+    if key not in _K2:
+        from biotite.sequence import LetterAlphabet
+        from biotite.sequence.align import KmerAlphabet
+
+        _K2[key] = KmerAlphabet(LetterAlphabet(alph), 2, spacing=spacing)
+    return _K2[key]
+
+
+def check_derived(ctx, cls, pal, s, dname, dfn, d):
+    """E: op2(op1(x)) for every second operation, on a freshly derived object each time"""
+    alph = seq_alphabet(cls, pal)
+    for oname, f2, want in _second_ops(cls, alph, d):
+        mk = lambda: aud_case("derived", cls=cls, pal=pal, s=s, op1=dname, op2=oname)  # noqa: E731
+        r = call(lambda: f2(dfn(make_seq(cls, pal, s)), make_seq(cls, pal, d)))
+        if r[0] == "ok":
+            r = ("ok", plain(r[1]) if not isinstance(r[1], (list, tuple)) or oname != "views" else list(r[1]))
+        judge(ctx, "Sequence.derived|" + oname, "after_" + dname, mk, r, ("accept", want), 1)
+    ctx.outcome(("derived", cls, dname, d))
+
+
+DERIVED_STRINGS = {
+    "nuc": None,   # every ACGT string of length <= 3, plus the listed longer ones
+    "nuc_long": ["ATGA", "ATGTAA", "CATGCAT", "TTATGGCTAG"],
+    "nuca": ["", "N", "RY", "ANT", "MKWS", "HBVDN"],
+    "prot": ["", "M", "M*", "AC*D", "*K*", "BZX*W"],
+    "gen": ["", "x", "zy", "xyzx"],
+}
+
+
+def fam_identity_derived(ctx, part):
+    for cls in ("nuc", "nuca", "prot", "gen"):
+        if part != cls:
+            continue
+        pal = "xyz" if cls == "gen" else None
+        alph = seq_alphabet(cls, pal)
+        if cls == "nuc":
+            strings = ["".join(p) for L in range(0, 4) for p in itertools.product(alph, repeat=L)] + DERIVED_STRINGS["nuc_long"]
+        else:
+            strings = DERIVED_STRINGS[cls]
+        for s in strings:
+            for name, fn, exp in _derivations(cls, alph, s):
+                check_identity(ctx, cls, pal, s, name, fn, exp)
+                check_derived(ctx, cls, pal, s, name, fn, exp)
+    # protein sequences handed out by translate() as derived inputs
+    if part == "nuc":
+        import biotite.sequence as bs
+
+        alphp = sm.PROT24
+        for s in ("ATGAAATAAATGCC", "TTGATGTGA", "ATG"):
+            o = sm.orfs(s, sm.STANDARD_CODE, {"ATG"}, True)
+            for j, (p, _) in enumerate(o):
+                check_derived(ctx, "prot", None, p, "translate_orf%d_of_%s" % (j, s),
+                              lambda q, s=s, j=j: bs.NucleotideSequence(s).translate(met_start=True)[0][j], p)
+            if len(s) % 3 == 0:
+                pc = sm.translate_complete(s, sm.STANDARD_CODE)
+                check_derived(ctx, "prot", None, pc, "translate_complete_of_" + s,
+                              lambda q, s=s: bs.NucleotideSequence(s).translate(complete=True), pc)
+    ctx.sample(aud_case("derived", cls=part, s=DERIVED_STRINGS.get(part, ["ATGA"])[-1] if part != "nuc" else "ATGA", op1="slice_step2", op2="complement"))
+
+
+def fam_two_features(ctx):
+    """C: two awkward features, handled by different branches, in one value"""
+    import biotite.sequence as bs
+    from biotite.sequence.align import KmerAlphabet
+
+    fam = "two_features"
+    for syms in (sm.NUC4, sm.PROT24, "".join(PERMS[0])):
+        A, M = letter_objects(syms)
+        n = M.n
+        reps = {"code_negative": [-1, -256, -255 + 0], "code_eq_len": [n], "code_above_len": [n + 1] if n + 1 < 256 else [],
+                "code_above_255": [256, 256 + n - 1, 511], "code_above_65535": [65536, 2**32 + 1]}
+        pairs = [(ca, a, cb, b) for ca, va in reps.items() for a in va for cb, vb in reps.items() for b in vb if ca != cb]
+        for ca, a, cb, b in pairs:
+            for codes in ([a, b], [0, a, n - 1, b], [a, 0, b]):
+                for dt in ("int64", "int32") if max(abs(a), abs(b)) < 2**31 else ("int64",):
+                    arr = np.array(codes, dtype=dt)
+                    mk = lambda: aud_case(fam, label="codes", alph=syms, codes=codes, dt=dt)  # noqa: E731
+                    r = call(lambda: plain(A.decode_multiple(arr)))
+                    judge(ctx, "LetterAlphabet.decode_multiple", "two_classes", mk, r, ("refuse", True), 1)
+                    check_seq_code(ctx, A, M, mk, arr)
+
+                    def setit():
+                        q = bs.GeneralSequence(A, [syms[0]] * len(codes))
+                        try:
+                            q[:] = arr
+                        except Exception:  # noqa: BLE001
+                            return ["refused", observe_seq(q, M.symbols, [syms[0]] * len(codes))]
+                        v = call(str, q)
+                        return ["stored", v[0]]
+                    r = call(setit)
+                    if r[0] == "ok" and r[1] not in (["refused", None], ["stored", "exc"]):
+                        ctx.violation("Sequence.__setitem__|bad_state_after_invalid_code|two_classes", "two invalid codes of different classes", mk(),
+                                      "refused/unchanged or unreadable", r[1])
+                    ctx.ev(1, 1)
+                    ctx.count("refused")
+        # symbol containers with two different kinds of awkward item / awkward string
+        v0, vl = syms[0], syms[-1]
+        foreign = "~" if "~" not in syms else " "
+        odd = [("multichar+nonascii", [v0, "é" + v0]), ("multichar+foreign", [v0 + vl, foreign]), ("foreign+multichar", [foreign, v0 + vl]),
+               ("empty+foreign", ["", foreign]), ("nonstring+multichar", [None, v0 * 2]), ("multichar+nonstring", [v0 * 2, 7]),
+               ("nonascii+foreign", ["é", foreign]), ("bytes_multichar+str_foreign", [(v0 + vl).encode(), foreign]),
+               ("lower+multichar", [v0.lower() if v0.lower() not in syms else foreign, vl * 2]),
+               ("empty+multichar", ["", v0 * 2]), ("foreign+nonstring", [foreign, 1.5])]
+        for label, items in odd:
+            for form in ("list", "tuple", "object_array", "str_array"):
+                if form == "str_array" and not all(isinstance(i, str) for i in items):
+                    continue
+                x = {"list": list(items), "tuple": tuple(items), "object_array": np.array(items + [None], dtype=object)[:-1],
+                     "str_array": np.array(items) if all(isinstance(i, str) for i in items) else None}[form]
+                mk = lambda: aud_case(fam, label="symbols", alph=syms, which=label, form=form)  # noqa: E731
+                r = call(lambda: plain(A.encode_multiple(x)))
+                judge(ctx, "LetterAlphabet.encode_multiple", "two_odd_items", mk, r, ("either", NOVALUE), 1)
+                r = call(lambda: str(bs.GeneralSequence(A, x)))
+                judge(ctx, "Sequence()", "two_odd_items", mk, r, ("either", NOVALUE), 1)
+        for label, x in (("str_nonascii+foreign", "é" + foreign), ("str_foreign+nonascii", v0 + foreign + "é"), ("bytes_nonascii+foreign", b"\xff" + foreign.encode()),
+                         ("str_control+foreign", "\x00" + foreign), ("str_foreign_twice_different", foreign + "\x7f")):
+            r = call(lambda: plain(A.encode_multiple(x)))
+            judge(ctx, "LetterAlphabet.encode_multiple", "two_odd_chars", lambda: aud_case(fam, label="string", alph=syms, which=label), r,
+                  ("either", NOVALUE), 1)
+        # assignment: wrong length AND foreign symbol; out-of-range index AND foreign symbol; refused, object unchanged
+        base = [v0, vl, v0, vl]
+        for label, idx, item in (("length+foreign", slice(0, 2), v0 + vl + foreign), ("length+code", slice(0, 2), np.array([0, n, 1])),
+                                 ("index_oor+foreign", 9, foreign), ("index_oor+multichar", -9, v0 * 2),
+                                 ("mask_length+foreign", np.array([True, False]), foreign), ("index_array_oor+foreign", [0, 9], v0 + foreign),
+                                 ("length+other_alphabet", slice(0, 2), bs.GeneralSequence(bs.LetterAlphabet("01"), "010"))):
+            def go():
+                q = bs.GeneralSequence(A, base)
+                try:
+                    q[idx] = item
+                except Exception:  # noqa: BLE001
+                    return ["refused", observe_seq(q, M.symbols, base)]
+                return ["accepted", str(q)]
+            r = call(go)
+            judge(ctx, "Sequence.__setitem__", "two_reasons_to_refuse", lambda: aud_case(fam, label="setitem", alph=syms, which=label), r,
+                  ("accept", ["refused", None]), 1)
+    # create_kmers: two out-of-range codes in different roles
+    base = bs.LetterAlphabet("ACG")
+    for sp in (None, [0, 2], [0, 1, 3], [1, 3]):
+        k = 2 if sp is None or len(sp) == 2 else 3
+        K = KmerAlphabet(base, k, spacing=sp)
+        span = (sp[-1] + 1) if sp else k
+        L = span + 2
+        good = [(i * 2 + 1) % 3 for i in range(L)]
+        for i in range(L):
+            for j in range(L):
+                if i == j:
+                    continue
+                for vi, vj in ((3, 255), (200, 3)):
+                    t = list(good)
+                    t[i], t[j] = vi, vj
+                    exp, read, cnt = sm.kmers_of([c if c < 3 else 0 for c in t], 3, k, sp)
+                    touched = any(x in read for x in (i, j))
+                    for dt in ("uint8", "uint64"):
+                        r = call(lambda: pl(K.create_kmers(np.array(t, dtype=dt))))
+                        mk = lambda: aud_case(fam, label="kmers", sp=sp, seq=t, dt=dt)  # noqa: E731
+                        judge(ctx, "KmerAlphabet.create_kmers", "two_bad_codes", mk, r,
+                              ("refuse", True) if touched else ("either", exp), 1)
+    # k-mer code tuples: bad symbol code AND wrong length ; k-mer code array: negative AND too large
+    K = KmerAlphabet(bs.LetterAlphabet("ACGT"), 3)
+    for label, f in (("fuse_len+code", lambda: K.fuse(np.array([0, 4]))), ("fuse_len+neg", lambda: K.fuse(np.array([0, 1, 2, -1]))),
+                     ("split_neg+large", lambda: K.split(np.array([-1, 64]))), ("split_large+neg", lambda: K.split(np.array([0, 64, 3, -2]))),
+                     ("encode_len+foreign", lambda: K.encode("AX")), ("decode_multiple_two", lambda: K.decode_multiple([64, -1]))):
+        r = call(lambda: repr(f()))
+        judge(ctx, "KmerAlphabet", "two_reasons_to_refuse", lambda: aud_case(fam, label=label), r, ("refuse", True), 1)
+    # codon tables: every single missing codon is refused (sentinel -1 of the look-up array); missing + foreign letter
+    for c in sm.ALL_CODONS:
+        d = dict(sm.STANDARD_CODE)
+        del d[c]
+        r = call(lambda: repr(bs.CodonTable(d, ["ATG"])))
+        judge(ctx, "CodonTable()", "codon_missing", lambda: aud_case(fam, label="missing", codon=c), r, ("refuse", False), 1)
+    for label, d, st in (("missing+foreign_aa", {**{k_: v for k_, v in sm.STANDARD_CODE.items() if k_ != "AAA"}, "CCC": "?"}, ["ATG"]),
+                         ("foreign_codon+foreign_start", {**sm.STANDARD_CODE, "AAX": "K"}, ["ATX"]),
+                         ("start_len+start_letter", dict(sm.STANDARD_CODE), ["AT", "ATX"]),
+                         ("lower_codon+missing", {**{k_: v for k_, v in sm.STANDARD_CODE.items() if k_ != "AAA"}, "aaa": "K"}, ["ATG"])):
+        r = call(lambda: repr(bs.CodonTable(d, st)))
+        judge(ctx, "CodonTable()", "two_reasons_to_refuse", lambda: aud_case(fam, label=label), r, ("refuse", False), 1)
+    ctx.sample(aud_case(fam, label="codes", alph="ACGT", codes=[-1, 256], dt="int64"))
+
+
+def fam_seqhist3(ctx):
+    """D: one object filled with contents of other sizes (longer, shorter, empty) three times, every view read in between"""
+    starts = {"nuc": ["ATGA", ""], "nuca": ["NN"], "prot": ["MK*"], "gen": ["xyx"]}
+    for cls, strs in starts.items():
+        pal = "xyz" if cls == "gen" else None
+        alph = seq_alphabet(cls, pal)
+        a0, a1, al = alph[0], alph[1 % len(alph)], alph[-1]
+        n = len(alph)
+        size_ops = [["symbols=", a1 + al + a1 + a0 + al], ["symbols=", ""], ["symbols=", [al, a0]], ["symbols=", a1],
+                    ["code=", [n - 1, 0, 1 % n], "uint8"], ["code=", [1 % n] * 7, "int64"], ["code=", [], "int64"],
+                    ["symbols=", a1 + "?"], ["code=", [0, 256], "int64"]]
+        reads = [["noop_views"], ["reverse"], ["add_self"], ["index", [None, None, 2]], ["copy"]]
+        if cls in ("nuc", "nuca"):
+            reads.append(["complement"])
+        if cls == "nuc":
+            reads.append(["translate"])
+        for s in strs:
+            for a in size_ops:
+                for b in size_ops:
+                    for c in size_ops[:7]:
+                        rd = reads[(len(repr(a)) + len(repr(b)) + len(repr(c))) % len(reads)]
+                        check_history(ctx, cls, pal, s, [a, rd, b, rd, c, rd], fam="seqhist3")
+            for a in size_ops[:7]:
+                for rd in reads:
+                    for b in size_ops[:7]:
+                        check_history(ctx, cls, pal, s, [rd, a, rd, b, rd], fam="seqhist3")
+    ctx.sample(aud_case("seqhist3", cls="nuc", pal=None, s="ATGA", ops=[["symbols=", "CTCAT"], ["translate"], ["code=", [], "int64"], ["translate"]]))
+
+
+AUDIT_FAMS.update({"two_features": fam_two_features, "seqhist3": fam_seqhist3})
